@@ -1,5 +1,5 @@
 import PycModel.Generator
-import PycModel.Properties.Tables
+import PycModel.Properties.TablesPrec
 import PycModel.Properties.TablesGen
 import PycModel.Proofs.GenParen
 /-!
